@@ -145,7 +145,7 @@ func readSubmission(r xml.TokenReader) (data []byte, c canon, err error) {
 }
 
 func TestC19FormAPI(t *testing.T) {
-	ev.Check(t, 6000, 60000, func(rt *rapid.T) {
+	ev.Check(t, 12000, 80000, func(rt *rapid.T) {
 		// form.New and the field constructors only record their arguments
 		d, plans, desc := genFormPlan(rt)
 		typeOf := map[string]form.FieldType{}
